@@ -76,6 +76,10 @@ fn main() {
         p_rows::stdin_child(&args[2..]);
         return;
     }
+    if args.len() >= 3 && args[1] == "stdin-cli" {
+        p_cli::stdin_cli_child(&args[2..]);
+        return;
+    }
     if args.len() < 2 {
         eprintln!("usage: verif_replay <cmd> [--seed N] [--tier T] [--input JSON]");
         std::process::exit(2);
@@ -86,7 +90,11 @@ fn main() {
         match args[i].as_str() {
             "--seed" => { o.seed = args[i + 1].parse().unwrap_or(1); i += 1; }
             "--tier" => { o.thorough = args[i + 1] == "thorough"; i += 1; }
-            "--input" => { o.input = Some(parse_flat(&args[i + 1])); i += 1; }
+            "--input" => {
+                let m = parse_flat(&args[i + 1]);
+                if m.contains_key("stale_output") { std::env::set_var("VERIF_STALE_OUTPUT", "1"); }
+                o.input = Some(m); i += 1;
+            }
             _ => {}
         }
         i += 1;
